@@ -73,7 +73,7 @@ impl Property for C11 {
     vec!["a cursor replayed after a delete-only commit (index generation unchanged) is judged leniently: an error, or hits that are live in the new state (scores and therefore positions legitimately change with the segment statistics)".into()]
   }
   fn plan(tier: Tier) -> Plan {
-    Plan { workers: 16, cases_per_worker: tier.pick(400, 8000) }
+    Plan { workers: 16, cases_per_worker: tier.pick(1200, 40000) }
   }
   fn shrink_iters() -> u32 {
     800
